@@ -49,7 +49,7 @@ BREAKING = {
     "segloop-ignores-peer-window": (["C05"], ["segloop."],
         sub("src/stream_dispatch.rs", "let max_payload_size = (ss as usize).min(remote_window_remaining);", "let max_payload_size = ss as usize;")),
     "ooq-overwrites-present-slot": (["C04"], ["ooq.k.add_remove"],
-        sub("src/stream_rx.rs", "        if !ooq_slot_is_default(slot) {\n            return Ok(AssemblerAddRemoveResult::AlreadyPresent);\n        }", "        if !ooq_slot_is_default(slot) && offset > 0 {\n            return Ok(AssemblerAddRemoveResult::AlreadyPresent);\n        }")),
+        sub("src/stream_rx.rs", "        if !ooq_slot_is_default(slot) {\n            return Ok(AssemblerAddRemoveResult::AlreadyPresent);\n        }", "        if !ooq_slot_is_default(slot) && offset > 1 {\n            return Ok(AssemblerAddRemoveResult::AlreadyPresent);\n        }")),
     "sack-bits-shifted": (["C04"], ["ooq.k.selective_ack"],
         sub("src/stream_rx.rs", "        let start = self.filled_front + 1;\n        if start >= self.data.len() {", "        let start = self.filled_front;\n        if start >= self.data.len() {")),
     "wire-accept-version-0": (["C11"], ["wire.k.parse_vs_reference"],
